@@ -42,7 +42,7 @@ theorem tree_key_warm_cold (S : Sem) (H : Hyp S) (w0 : World) (hc : w0.cache = [
 /-- non-vacuity: a real history satisfies the hypotheses, and the second run takes `b`'s tree from the cache -/
 example : Hyp cxSem ∧ (∀ op ∈ cxHist, OpOK op) ∧
     ((run cxSem (exec cxSem cxWorld cxHist) true).trees.length = 3 ∧
-     (run cxSem (exec cxSem cxWorld cxHist) true).log.contains ('r', treePath cxSem ['b'] [] [] [] 0 2)) = true ∧ cxWorld.grammarMtime < cxWorld.clock :=
+     (run cxSem (exec cxSem cxWorld cxHist) true).log.contains ('r', treePath cxSem ['b'] [] [] [] 0 2 (treeHashArg cxSem [c3]))) = true ∧ cxWorld.grammarMtime < cxWorld.clock :=
   ⟨cxSem_hyp, cxHist_ok, by decide +kernel, by decide⟩
 
 /-- The same statement spelled out for histories that change `ParserSetting` without touching the grammar mtime (another
@@ -67,7 +67,7 @@ example :
     let w := exec gramSem { order := [['c']] } [.edit ['c'] [c1], .run true, .setting ['g', '2'] [] []]
     (run gramSem w true).trees = [(['c'], [c1, 'g', '2', '}'])]
     ∧ (run gramSem w true).log.all (fun e => !(e.1 == 'r' && e.2.take 1 == ['c'])) = true
-    ∧ treePath gramSem ['c'] [] [] [] 0 1 ∈ (w.cache.map (·.1)) := by
+    ∧ treePath gramSem ['c'] [] [] [] 0 1 (treeHashArg gramSem [c1]) ∈ (w.cache.map (·.1)) := by
   decide +kernel
 
 /-! ### C05.evict_safe — eviction by glob -/
@@ -296,6 +296,7 @@ def readExpr (e : Str) : Option Input :=
   else if e = ['s', 'e', 'l', 'f', '.', '_', '_', 's', 'e', 't', 't', 'i', 'n', 'g', '.', 's', 't', 'a', 'r', 't'] then some .start
   else if e = ['s', 'e', 'l', 'f', '.', '_', '_', 's', 'e', 't', 't', 'i', 'n', 'g', '.', 'a', 'l', 'g', 'o', 'r', 'i', 't', 'h', 'e', 'm'] then some .algo
   else if e = ['s', 't', 'r', '(', 's', 'e', 'l', 'f', '.', '_', '_', 's', 'o', 'u', 'r', 'c', 'e', 's', '.', 'm', 't', 'i', 'm', 'e', '(', 's', 'o', 'u', 'r', 'c', 'e', '_', 'p', 'a', 't', 'h', ')', ')'] then some .sourceMtime
+  else if e = ['s', 'e', 'l', 'f', '.', '_', '_', 's', 'o', 'u', 'r', 'c', 'e', 's', '.', 'h', 'a', 's', 'h', '(', 's', 'o', 'u', 'r', 'c', 'e', '_', 'p', 'a', 't', 'h', ')'] then some .ownBytes
   else none
 
 def treeKeyInputs : List (Option Input) := LarkCache.treeIdentity.map (fun kv => readExpr kv.2)
@@ -307,6 +308,9 @@ def parserDeps : List Input := [.grammarMtime, .grammarPath, .start, .algo]
 /-- a cached tree is `parse (parser) (source)` (`treeGet` of the model): it depends on whatever the parser depends on, and on
     the source file (its content; proxy: its mtime) -/
 def treeDeps : List Input := parserDeps ++ [.sourceMtime]
+/-- … of which the mtime is only a proxy: the tree is a function of the source's BYTES. A key that has the content hash covers
+    the bytes themselves (no "fresh mtime per edit" needed for the tree layer). -/
+def treeDepsBytes : List Input := parserDeps ++ [.ownBytes]
 
 def Covers (key : List (Option Input)) (deps : List Input) : Prop := ∀ d ∈ deps, some d ∈ key
 instance (key : List (Option Input)) (deps : List Input) : Decidable (Covers key deps) := by unfold Covers; infer_instance
@@ -333,14 +337,24 @@ theorem parser_key_covers :
   decide +kernel
 
 open KeyCover in
-/-- The tree files' key is made of exactly the five arguments of `Sem.treeIdent`, in the code's order: the grammar's mtime,
-    its path, the start rule, the algorithm, the source's mtime (9dfb5b4). -/
+/-- The tree files' key is made of exactly the arguments of `Sem.treeIdent`, in the code's order: the grammar's mtime, its path,
+    the start rule, the algorithm, the source's mtime (9dfb5b4) — and, exactly when the identity dictionary carries the key `hash`
+    (`treeKeyHasHash`, which is what makes the model pass the content hash to `Sem.treeIdent`: `treeHashArg`), the md5 of the
+    source's bytes as the last component. Every expression of the generated dictionary is understood. -/
 theorem tree_key_inputs :
-    treeKeyInputs = [some .grammarMtime, some .grammarPath, some .start, some .algo, some .sourceMtime] := by decide +kernel
+    treeKeyInputs = [some .grammarMtime, some .grammarPath, some .start, some .algo, some .sourceMtime] ++
+      (if treeKeyHasHash = true then [some .ownBytes] else []) := by decide +kernel
 
 open KeyCover in
 /-- The tree key covers what a cached tree depends on: everything the parser is built from, and the source. -/
 theorem tree_key_covers : Covers treeKeyInputs treeDeps := by decide +kernel
+
+open KeyCover in
+/-- The mtime is a proxy of the bytes only while every edit draws a fresh mtime (`tree_key` is stated for such histories; the
+    history edit, edit back to the old mtime with other content, run refutes the law on the real code: finding
+    `tree-stale:mtime-recurs-same-generation`). A key that carries the content hash covers the bytes themselves — exactly when the
+    generated dictionary has the key `hash`. -/
+theorem tree_key_covers_bytes : Covers treeKeyInputs treeDepsBytes ↔ treeKeyHasHash = true := by decide +kernel
 
 open KeyCover in
 /-- regression: the key before 9dfb5b4 (finding `tree-key-ignores-grammar-path`, corpus/C05/grammar-switch-same-mtime.json),
@@ -358,6 +372,8 @@ structure Env where
   gp : Str
   st : Str
   al : Str
+  /-- md5 of the source's bytes -/
+  hs : Str := []
 
 def Env.val (e : Env) : Input → Nat ⊕ Str
   | .grammarMtime => .inl e.gm
@@ -365,10 +381,11 @@ def Env.val (e : Env) : Input → Nat ⊕ Str
   | .grammarPath => .inr e.gp
   | .start => .inr e.st
   | .algo => .inr e.al
+  | .ownBytes => .inr e.hs
   | _ => .inr []
 
 /-- the model's tree-file and parser-pickle names in a run -/
-def treeName (S : Sem) (key : Str) (e : Env) : Str := treePath S key e.gp e.st e.al e.gm e.sm
+def treeName (S : Sem) (key : Str) (e : Env) : Str := treePath S key e.gp e.st e.al e.gm e.sm (if treeKeyHasHash = true then e.hs else [])
 def parserName (S : Sem) (e : Env) : Str := parserPath S e.gp e.st e.al e.gm
 end KeyCover
 
@@ -381,9 +398,12 @@ theorem tree_name_exact (S : Sem) (H : Hyp S) (key : Str) (e e' : Env) :
   rw [tree_key_inputs]
   constructor
   · intro h i hi
-    obtain ⟨_, h1, h2, h3, h4, h5⟩ := treePath_inj H h
-    simp at hi
-    rcases hi with rfl | rfl | rfl | rfl | rfl <;> simp [Env.val, h1, h2, h3, h4, h5]
+    obtain ⟨_, h1, h2, h3, h4, h5, h6⟩ := treePath_inj H h
+    cases hh : treeKeyHasHash
+    · simp [hh] at hi
+      rcases hi with rfl | rfl | rfl | rfl | rfl <;> simp [Env.val, h1, h2, h3, h4, h5]
+    · simp [hh] at hi h6
+      rcases hi with rfl | rfl | rfl | rfl | rfl | rfl <;> simp [Env.val, h1, h2, h3, h4, h5, h6]
   · intro h
     have h1 := h .grammarMtime (by simp)
     have h2 := h .grammarPath (by simp)
@@ -391,7 +411,11 @@ theorem tree_name_exact (S : Sem) (H : Hyp S) (key : Str) (e e' : Env) :
     have h4 := h .algo (by simp)
     have h5 := h .sourceMtime (by simp)
     simp [Env.val] at h1 h2 h3 h4 h5
-    simp [treeName, h1, h2, h3, h4, h5]
+    cases hh : treeKeyHasHash
+    · simp [treeName, hh, h1, h2, h3, h4, h5]
+    · have h6 := h .ownBytes (by simp [hh])
+      simp [Env.val] at h6
+      simp [treeName, hh, h1, h2, h3, h4, h5, h6]
 
 open KeyCover in
 /-- … the same for the parser pickle: its name in the model is determined by, and determines, exactly the generated key list. -/
@@ -412,8 +436,8 @@ theorem parser_name_exact (S : Sem) (H : Hyp S) (e e' : Env) :
     simp [parserName, h1, h2, h3, h4]
 
 /-- non-vacuity: two runs differing only in the grammar's path share neither the tree file's name nor the parser pickle's -/
-example : KeyCover.treeName cxSem ['m'] ⟨1, 2, ['g'], [], []⟩ ≠ KeyCover.treeName cxSem ['m'] ⟨1, 2, ['h'], [], []⟩
-    ∧ KeyCover.parserName cxSem ⟨1, 2, ['g'], [], []⟩ ≠ KeyCover.parserName cxSem ⟨1, 2, ['h'], [], []⟩ := by
+example : KeyCover.treeName cxSem ['m'] ⟨1, 2, ['g'], [], [], []⟩ ≠ KeyCover.treeName cxSem ['m'] ⟨1, 2, ['h'], [], [], []⟩
+    ∧ KeyCover.parserName cxSem ⟨1, 2, ['g'], [], [], []⟩ ≠ KeyCover.parserName cxSem ⟨1, 2, ['h'], [], [], []⟩ := by
   refine ⟨fun h => ?_, fun h => ?_⟩
   · have := (treePath_inj cxSem_hyp h).2.1
     simp at this
